@@ -509,9 +509,12 @@ TRICKY_STRINGS = ["cafe\u0301", "Zoe\u0308", "n\u0303", "\u1100\u1161\u11a8", "\
 
 
 def exercise_new_api(chk, probe, inside):
-    """Public callables the changed source defines and the pinned baseline does not (harness/srcdict.py): each one that can be called without arguments is called; what it
+    """Public callables the changed source defines and the pinned baseline does not (harness/srcdict.py): each one is called - without arguments if it takes none, otherwise
+    with candidate values chosen by parameter name / annotation (instants in 2019 / now / 2090 as datetime or number, booleans, None, short texts and byte strings); what it
     returns is used as a context manager (if it is one) around `inside()` - a few accepted AND refused calls of the old API - or simply dropped.  Afterwards `probe()` must
-    answer as it did before: new API, used or abused, does not change what the existing API does (leaked modes, switched defaults, half-restored state)."""
+    answer as it did before: new API, used or abused, does not change what the existing API does (leaked modes, switched defaults, half-restored state).  Context managers are
+    also used the way a multi-threaded server uses them: held open on ANOTHER thread while this thread runs `probe()` (the old API on this thread must not notice), and by two
+    threads whose blocks OVERLAP without nesting (enter A, enter B, leave A, leave B) - after which `probe()` must again answer as before."""
     try:
         from harness import srcdict
         names = srcdict.new_callables()
@@ -519,40 +522,144 @@ def exercise_new_api(chk, probe, inside):
         names = []
     if not names:
         return
-    import importlib, inspect
+    import importlib, inspect, datetime, threading, time as _time
     before = probe()
     used = []
+
+    def candidates(f):
+        try:
+            sig = inspect.signature(f)
+        except Exception:
+            return []
+        req = [p_ for p_ in sig.parameters.values() if p_.default is inspect.Parameter.empty and p_.kind in (p_.POSITIONAL_ONLY, p_.POSITIONAL_OR_KEYWORD, p_.KEYWORD_ONLY)]
+        if not req:
+            return [((), {})]
+        if len(req) > 2:
+            return []
+        now = _time.time()
+        pool = []
+        for p_ in req:
+            ann = str(p_.annotation).lower() + " " + p_.name.lower()
+            vals = []
+            if any(w in ann for w in ("time", "date", "when", "instant", "clock", "now")):
+                vals += [datetime.datetime(2019, 1, 1), datetime.datetime(2090, 1, 1), datetime.datetime.utcfromtimestamp(now), 1546300800, 3786825600, int(now)]
+            if "bool" in ann or any(w in ann for w in ("strict", "enable", "allow", "flag")):
+                vals += [True, False]
+            if "int" in ann:
+                vals += [0, 1, -7]
+            if "bytes" in ann:
+                vals += [b"", b"x"]
+            vals += [None, True, "x", 1]
+            pool.append(vals[:7])
+        out = []
+        for i_ in range(max(len(v) for v in pool)):
+            args, kwargs = [], {}
+            for p_, v in zip(req, pool):
+                val = v[min(i_, len(v) - 1)]
+                if p_.kind == p_.KEYWORD_ONLY:
+                    kwargs[p_.name] = val
+                else:
+                    args.append(val)
+            out.append((tuple(args), kwargs))
+        return out
+
+    managers = []          # (qualified name, thunk that builds a fresh context manager)
     for qn in names[:12]:
         mod, nm = qn.split(":")
         try:
             f = getattr(importlib.import_module(mod), nm)
-            sig = inspect.signature(f)
-            if any(p.default is inspect.Parameter.empty and p.kind in (p.POSITIONAL_ONLY, p.POSITIONAL_OR_KEYWORD, p.KEYWORD_ONLY) for p in sig.parameters.values()):
-                continue
         except Exception:
             continue
+        cands = candidates(f)
+        if not cands:
+            continue
         used.append(qn)
-        for attempt in range(2):
-            try:
-                r = f()
-                if hasattr(r, "__enter__") and hasattr(r, "__exit__"):
-                    with r:
-                        inside()
-                elif callable(r):
-                    try:
-                        r(lambda *a, **k: None)
-                    except Exception:
-                        pass
-            except Exception:
-                pass
+        for args, kwargs in cands:
+            for attempt in range(2):
+                try:
+                    r = f(*args, **kwargs)
+                    if hasattr(r, "__enter__") and hasattr(r, "__exit__"):
+                        if attempt == 0:
+                            managers.append((qn + repr(args)[:40], lambda f=f, args=args, kwargs=kwargs: f(*args, **kwargs)))
+                        with r:
+                            inside()
+                    elif callable(r):
+                        try:
+                            r(lambda *a, **k: None)
+                        except Exception:
+                            pass
+                except Exception:
+                    pass
     after = probe()
     chk.evals += len(before)
     chk.notes.append({"new_public_callables_exercised": used})
     for (lab, x), (_, y) in zip(before, after):
         if x != y:
             chk.violation(f"after the new public API ({', '.join(used)[:120]}) was used, '{lab}' gives {y[:60]} instead of {x[:60]}", f"new-api-side-effect {lab.split(' ')[0]}",
-                          {"new_callables": used, "case": lab, "before": x[:300], "after": y[:300], "history": "call each new zero-argument callable; use what it returns as a context manager around a few accepted and refused calls of the old API (exceptions propagate through the with block); leave"})
-            break
+                          {"new_callables": used, "case": lab, "before": x[:300], "after": y[:300], "history": "call each new callable (candidate arguments); use what it returns as a context manager around accepted and refused calls; then repeat the probe"})
+            return
+    # ... held open on another thread
+    for label, mk in managers[:8]:
+        entered, release = threading.Event(), threading.Event()
+
+        def holder(mk=mk):
+            try:
+                with mk():
+                    entered.set()
+                    release.wait(20)
+            except Exception:
+                entered.set()
+        t = threading.Thread(target=holder, daemon=True)
+        t.start()
+        entered.wait(10)
+        try:
+            during = probe()
+        finally:
+            release.set()
+            t.join(10)
+        chk.evals += len(before)
+        for (lab, x), (_, y) in zip(before, during):
+            if x != y:
+                chk.violation(f"while ANOTHER thread is inside `with {label}`, '{lab}' on this thread gives {y[:60]} instead of {x[:60]}: the block's setting is process-wide", f"new-api-other-thread {lab.split(' ')[0]}",
+                              {"new_callable": label, "case": lab, "alone": x[:300], "while_another_thread_is_inside_the_block": y[:300]})
+                return
+    # ... overlapping without nesting: enter A (thread 1), enter B (thread 2), leave A, leave B
+    for (la, mka), (lb, mkb) in list(zip(managers, managers[1:] + managers[:1]))[:6]:
+        ev = {k_: threading.Event() for k_ in ("a_in", "b_in", "a_out", "go_a_out", "go_b_out")}
+
+        def t1():
+            try:
+                with mka():
+                    ev["a_in"].set()
+                    ev["go_a_out"].wait(20)
+            except Exception:
+                ev["a_in"].set()
+            ev["a_out"].set()
+
+        def t2():
+            ev["a_in"].wait(10)
+            try:
+                with mkb():
+                    ev["b_in"].set()
+                    ev["go_b_out"].wait(20)
+            except Exception:
+                ev["b_in"].set()
+        th = [threading.Thread(target=t1, daemon=True), threading.Thread(target=t2, daemon=True)]
+        for t in th:
+            t.start()
+        ev["b_in"].wait(10)
+        ev["go_a_out"].set()
+        ev["a_out"].wait(10)
+        ev["go_b_out"].set()
+        for t in th:
+            t.join(10)
+        later = probe()
+        chk.evals += len(before)
+        for (lab, x), (_, y) in zip(before, later):
+            if x != y:
+                chk.violation(f"after two threads used `with {la}` / `with {lb}` in overlapping (not nested) blocks - all of them finished -, '{lab}' gives {y[:60]} instead of {x[:60]}: a stale setting was restored and stays",
+                              f"new-api-overlapping-blocks {lab.split(' ')[0]}", {"new_callables": [la, lb], "case": lab, "before": x[:300], "after": y[:300], "history": "thread 1 enters A; thread 2 enters B; thread 1 leaves A; thread 2 leaves B; probe"})
+                return
 
 
 def lookalike_bytes():
